@@ -159,14 +159,17 @@ Section Tree.
 
   (* buildEvalTree: the node tree of a query selects exactly the LIDs inside the borders whose document
      satisfies the query *)
-  Lemma build_tree_sound : forall q,
-    exists t, build_tree (vocab tab) tab lo hi q = Ok t /\ wf_ntree rev t /\
+  Lemma build_tree_with_sound (leaf : pat -> res ntree) :
+    (forall p, exists t, leaf p = Ok t /\ wf_ntree rev t /\ (forall x, nsem t x = true <-> sel (QLeaf p) x)) ->
+    forall q,
+    exists t, build_tree_with leaf lo hi q = Ok t /\ wf_ntree rev t /\
               (forall x, nsem t x = true <-> sel q x).
   Proof.
+    intros Hleaf.
     induction q as [p|a [ta [Ea [Wa Sa]]]|l [tl [El [Wl Sl]]] r [tr [Er [Wr Sr]]]
                    |l [tl [El [Wl Sl]]] r [tr [Er [Wr Sr]]]|n [tn [En [Wn Sn]]] r [tr [Er [Wr Sr]]]];
-      cbn [build_tree].
-    - apply leaf_tree_sound.
+      cbn [build_tree_with].
+    - apply Hleaf.
     - rewrite Ea. cbn [bind]. eexists. split; [reflexivity|]. split.
       { constructor; auto; try (unfold two32 in *; lia). }
       intros x. cbn [nsem]. rewrite !andb_true_iff, !N.leb_le, negb_true_iff. unfold sel. cbn [sat]. split.
@@ -196,4 +199,9 @@ Section Tree.
           rewrite Ed in Ed'. inversion Ed'; subst d'. congruence.
         * split; auto. split; eauto.
   Qed.
+
+  Lemma build_tree_sound : forall q,
+    exists t, build_tree (vocab tab) tab lo hi q = Ok t /\ wf_ntree rev t /\
+              (forall x, nsem t x = true <-> sel q x).
+  Proof. intros q. unfold build_tree. apply build_tree_with_sound. apply leaf_tree_sound. Qed.
 End Tree.
